@@ -212,6 +212,15 @@ impl<L: Lit> Renumber<L> {
         }
 
         for latch in &aig.latches {
+            // `lit_defs` does not know about latches, so check here that a latch does not redefine a
+            // literal that is already an input, another latch or an and gate output.
+            let lit = latch.state;
+            if self.lit_map.contains_key(lit)
+                || self.defs.contains_key(&lit)
+                || self.defs.contains_key(&L::from_code(1 ^ lit.code()))
+            {
+                return Err(AigStructureError::LitAlreadyDefined { lit });
+            }
             self.last_code += 2;
             self.lit_map
                 .insert(latch.state, L::from_code(self.last_code));
